@@ -1,5 +1,5 @@
 (* Model.C03Run: executable checkers used by Run/cases_C03.v (no proofs). *)
-From DV Require Import Base.Prelude Model.Persist Model.MapLog Model.C04Run.
+From DV Require Import Base.Prelude Model.Persist Model.Heads Model.MapLog Model.MapLogV Model.C04Run.
 Local Open Scope N_scope.
 
 Inductive c03case :=
@@ -19,6 +19,11 @@ Inductive c03case :=
 (* labelmap mutations of one version, in segments separated by the restarts so far; the split
    records shown before and after the latest restart *)
 | CMapLog (segs : list (list mapop)) (before after : list (N * N * N * N))
+(* labelmap mutations at ANY versions, in the order they were made, in segments separated by the
+   restarts so far; the ancestry (itself first) of every version of the DAG; per version the split
+   records GET supervoxel-splits shows (its whole ancestry) before and after the latest restart *)
+| CMapLogV (ancs : list (N * list N)) (segs : list (list (N * mapop)))
+           (obs : list (N * list (N * N * N * N) * list (N * N * N * N)))
 (* GET nextlabel before and after *)
 | CNext (before after : N)
 (* records appended to a log by one engine instance, read by a re-opened one: how many were
@@ -45,6 +50,16 @@ Fixpoint run_segs (m : pmgr) (img : image) (segs : list (list pop)) : pmgr * ima
     end
   end.
 
+(* the repaired code (Model.Heads): merges validated before anything is created, the branch-head
+   cache refreshed from the DAG by newRepo / newVersion / accepted merge and rebuilt at start-up;
+   segments are separated by restarts ([hrun_segs]: the loaded manager and its start-up cache) *)
+Definition run_h (segs : list (list pop)) : res (pmgr * hcache * image) :=
+  hrun_segs conf (fst start_state) [] (snd start_state) segs.
+
+(* the same requests without any restart (the right-hand side of C03_restarts_interleaved) *)
+Definition run_flat (segs : list (list pop)) : pmgr * hcache * image :=
+  hrun_img conf (fst start_state) [] (snd start_state) (concat segs).
+
 Definition optN_eqb (a b : option N) : bool :=
   match a, b with Some x, Some y => x =? y | None, None => true | _, _ => false end.
 Definition quad_eqb (a b : N * N * N * N) : bool :=
@@ -67,16 +82,30 @@ Definition model_ok (c : c03case) : bool :=
   | CGen _ => true
   | CGenMerge _ => true
   | CRepos segs before after _ =>
-    let '(m, img) := run_segs (fst start_state) (snd start_state) segs in
-    repos_eqb (canon m) before &&
-    match recover conf img with Ok (mr, _) => repos_eqb (canon mr) after | _ => false end
+    match run_h segs with
+    | Ok (m, _, img) =>
+      repos_eqb (canon m) before &&
+      (let '(mflat, _, _) := run_flat segs in repos_eqb (canon mflat) before) &&
+      match recover conf img with Ok (mr, _) => repos_eqb (canon mr) after | _ => false end
+    | _ => false
+    end
   | CExtents _ _ => true
   | CHeads segs heads =>
     let '(m, img) := run_segs (fst start_state) (snd start_state) segs in
-    (* repaired: both sides answer the DAG function; as the code stood: cached map vs leaves *)
-    forallb (fun h : N * option N * option N => let '(br, b, a) := h in
-               optN_eqb (branch_head m 1 br) b &&
-               match recover conf img with Ok (mr, _) => optN_eqb (branch_head mr 1 br) a | _ => false end) heads
+    (* repaired: the running server answers from the cache kept by [hstep] (which must also be the
+       DAG function), the restarted one from the cache start-up builds; as the code stood: cached
+       map vs leaves *)
+    match run_h segs with
+    | Ok (mh, hc, imgh) =>
+      forallb (fun h : N * option N * option N => let '(br, b, a) := h in
+               optN_eqb (cached_head hc 1 br) b && optN_eqb (branch_head mh 1 br) b &&
+               (let '(_, hcflat, _) := run_flat segs in optN_eqb (cached_head hcflat 1 br) b) &&
+               match hrestart conf imgh with
+               | Ok (mr, hcr, _) => optN_eqb (cached_head hcr 1 br) a && optN_eqb (branch_head mr 1 br) a
+               | _ => false
+               end) heads
+    | _ => false
+    end
     || forallb (fun h : N * option N * option N => let '(br, b, a) := h in
                optN_eqb (live_head m 1 br) b &&
                match recover conf img with Ok (mr, _) => optN_eqb (live_head mr 1 br) a | _ => false end) heads
@@ -85,6 +114,16 @@ Definition model_ok (c : c03case) : bool :=
     let check := fun tw =>
       let '(s, lg) := seg_run tw segs in
       list_eqb quad_eqb (mp_splits s) before && list_eqb quad_eqb (mp_splits (replay mp_empty lg)) after in
+    check true || check false
+  | CMapLogV ancs segs obs =>
+    let check := fun tw =>
+      let '(st, lg) := vseg_go tw ancs ([], []) segs in
+      (* the same mutations without any restart (right-hand side of C03_maplog_restarts_interleaved) *)
+      let stflat := fst (vrun tw ancs ([], []) (concat segs)) in
+      forallb (fun x : N * list (N * N * N * N) * list (N * N * N * N) => let '(v, b, a) := x in
+                 list_eqb quad_eqb (vsplits st (anc_of ancs v)) b &&
+                 (tw || list_eqb quad_eqb (vsplits stflat (anc_of ancs v)) b) &&
+                 list_eqb quad_eqb (vsplits (vreplay lg) (anc_of ancs v)) a) obs in
     check true || check false
   | CNext _ _ => true
   | CLogRT _ _ _ _ _ => true
@@ -103,6 +142,9 @@ Definition spec_class (c : c03case) : nat :=
     else 1%nat
   | CExtents before after => if Bool.eqb before after then 0%nat else 1%nat
   | CMapLog _ before after => if list_eqb quad_eqb before after then 0%nat else 3%nat
+  | CMapLogV _ _ obs =>
+    if forallb (fun x : N * list (N * N * N * N) * list (N * N * N * N) => let '(_, b, a) := x in list_eqb quad_eqb b a) obs
+    then 0%nat else 3%nat
   | CNext before after =>
     if before =? after then 0%nat else 1%nat
   | CLogRT w ra sa rs ss => if rs && ss && Nat.eqb w ra && Nat.eqb w sa then 0%nat else 3%nat
